@@ -65,6 +65,20 @@ func c10Case(w *rt.W, text string, r roman.Rule) (accepted bool) {
 		var pe *roman.NumberFormatError[[]byte]
 		out = append(out, res{"Valid[[]byte]", 0, err, true, errors.As(err, &pe)})
 	}
+	{ // named string / byte-slice types are legal instantiations of the generic entry points
+		type nS string
+		type nB []byte
+		g, err := roman.DefaultParser(nS(text), r)
+		var pe *roman.NumberFormatError[nS]
+		out = append(out, res{"DefaultParser[named string]", g, err, false, errors.As(err, &pe)})
+		g, err = roman.DefaultParser(nB(text), r)
+		var pb *roman.NumberFormatError[nB]
+		out = append(out, res{"DefaultParser[named []byte]", g, err, false, errors.As(err, &pb)})
+		err = roman.Valid(nS(text), r)
+		out = append(out, res{"Valid[named string]", 0, err, true, errors.As(err, &pe)})
+		err = roman.Valid(nB(text), r)
+		out = append(out, res{"Valid[named []byte]", 0, err, true, errors.As(err, &pb)})
+	}
 	if r == 0 {
 		u := roman.Number(777777)
 		err := u.UnmarshalText([]byte(text))
@@ -237,6 +251,9 @@ func runC10(c *rt.Ctx) {
 				}
 				for _, la := range lookalikes {
 					c10Case(w, base[:p]+la+base[p:], 0)
+					if p < len(base) { // the look-alike in place of a letter (Unicode-aware case mapping turns some into ASCII letters)
+						c10Case(w, base[:p]+la+base[p+1:], 0)
+					}
 					w.ClassN("multibyte-lookalike-insertion", 1)
 				}
 				for _, ins := range []string{" ", "\n", "\x00", "i", "M", "m"} {
